@@ -131,13 +131,13 @@ PROPS = {
     "C18": {
         "panic_is_violation": True,
         "proved": "codec round trip for every i64/u64/f64 bit pattern (NaN -> canonical NaN, +/-inf preserved), shortest width, malformed shapes rejected, decoder never panics; the literal model of impl Ord for Number (incl. cmp_int_float and OrderedFloat) equals the order of exact values (NaN greatest, -0 = +0), hence reflexive/antisymmetric/transitive; int = uint iff same integer; int = float iff the float's exact value is that integer; as_i64/as_u64 exact or absent; as_f64 of a u64 is within half an ulp, exact below 2^53, monotone",
-        "missing": "as_f64 nearest-double statement is proved for unsigned integers and (isInt) signed ones; the half-ulp bound for negative integers follows by symmetry but is not stated separately",
+        "missing": "nothing known (the nearest-double statement covers every i64, negative ones included: C18_as_f64_int, monotone: C18_as_f64_int_monotone)",
         "assumptions": [],
     },
     "C10": {
         "panic_is_violation": True,
         "proved": "for every byte string the decoder model returns ok or err (never a panic site, never out of fuel: C10_total); every string and key it returns is valid UTF-8 (C10_utf8); every proper prefix of a valid encoding is rejected and a valid encoding is consumed exactly (C10_prefix_rejected, C10_valid_decodes); every text shorter than 2^27 bytes whose first byte can start a JSON text (other than a space) is rejected by the binary decoder, so from_slice hands it to the text parser (C10_text_fallback); from_slice never panics",
-        "missing": "texts of 2^27 bytes or more (the header count of a text starting with '[' or '{' could then be satisfiable) are outside the text-fallback theorem",
+        "missing": "nothing: the text-fallback theorem is sharp now (no bound for first bytes other than '[' and the backslash; for those, fewer than 8 * header-count bytes after the first four, in particular every text below 3 623 878 660 bytes); beyond that bound the statement is FALSE (known finding D23, C10_finding_long_text_read_as_binary, confirmed on the real code by hand)",
         "assumptions": [],
     },
     "C05": {
@@ -161,7 +161,7 @@ PROPS = {
     "C13": {
         "panic_is_violation": True,
         "proved": 'list-level laws (first occurrence, no repeats, idempotence, intersection/except partition the first list by one decision sequence, overlap iff intersection non-empty) and byte-level refinement of array_distinct, array_intersection, array_except, array_overlap for array, object and scalar operands, results canonical arrays in any prior buffer',
-        "missing": 'the count formula min(count xs, count ys) is not stated separately (it is implied by the removeFirst-based spec)',
+        "missing": 'nothing known (count formula: C13_counts)',
         "assumptions": ['documents are canonical encodings of good values (field widths, valid UTF-8, sorted unique keys)'],
     },
     "C14": {
